@@ -49,8 +49,8 @@ func vNext(name string, width int) vInputVal {
 	if vS == nil {
 		panic("verif: v* input requested outside a replay")
 	}
-	for vS.pos < len(vS.inputs) && strings.HasPrefix(stripIdx(vS.inputs[vS.pos].Name), "clk_") {
-		vS.pos++ // engine-internal clock readings have no native counterpart
+	for vS.pos < len(vS.inputs) && (strings.HasPrefix(stripIdx(vS.inputs[vS.pos].Name), "clk_") || strings.HasPrefix(stripIdx(vS.inputs[vS.pos].Name), "aux_")) {
+		vS.pos++ // engine-internal inputs (clock readings, token counts) have no native counterpart
 	}
 	if vS.pos >= len(vS.inputs) {
 		// inputs the model never constrained beyond the recorded ones: zero
